@@ -29,6 +29,7 @@ import itertools
 from fractions import Fraction
 
 from sa.index import AnalysisError
+from sa.index import before as _before
 
 MAXOPS = ('once', 'eventually')
 MINOPS = ('historically', 'always')
@@ -676,7 +677,7 @@ def _first_chunk_test(f, conds):
             a = state_test(st.value)
             if a is not None:
                 # bound before the attribute is overwritten
-                later = [w for w in written.get(a, []) if w.lineno > st.lineno]
+                later = [w for w in written.get(a, []) if _before(st, w)]
                 if later:
                     locals_[st.targets[0].id] = a
     for (t, truth) in conds:
@@ -686,7 +687,7 @@ def _first_chunk_test(f, conds):
             if isinstance(v, ast.Name) and v.id in locals_:
                 return True
             a = state_test(v)
-            if a is not None and any(w.lineno > v.lineno for w in written.get(a, [])):
+            if a is not None and any(_before(v, w) for w in written.get(a, [])):
                 return True
     return False
 
@@ -1472,7 +1473,7 @@ def _check_carry(rep, f, opname, rule, slot, info):
     dom = cfg.dominators()
     takes_out = [st for st in f.node.body if isinstance(st, ast.Assign) and ast.unparse(st.targets[0]) == carried_name and isinstance(st.value, ast.List) and not st.value.elts]
     for r in [x for x in ast.walk(f.node) if isinstance(x, ast.Return)]:
-        if takes_out and r.lineno > takes_out[0].lineno and not _flow.dominated_by(cfg, dom, r, lambda s_, dn: s_ is lp):
+        if takes_out and _before(takes_out[0], r) and not _flow.dominated_by(cfg, dom, r, lambda s_, dn: s_ is lp):
             problems.append(('early-return', 'update() can return (line %d) after the carried segments were taken out of %s and before they are put back: an update that brings '
                              'no new sample (a variable sampled at another rate, a heartbeat) forgets everything carried over' % (r.lineno, carried_name)))
     for pos, (R,) in (('R < b0', (0,)), ('R = b0', (1,)), ('b0 < R < b1', (2,)), ('R = b1', (3,)), ('b1 < R', (4,))):
@@ -1621,13 +1622,13 @@ def check_patchup(ix, rep, f, opname, rule='R-SEGBUILD', slot_prefix=''):
     for n in ast.walk(st):
         if isinstance(n, ast.Assign) and isinstance(n.targets[0], ast.Name):
             binds[n.targets[0].id] = ast.unparse(n.value).replace(' ', '')
-            if binds[n.targets[0].id] in ('%s.pop()' % stack, '%s.pop(-1)' % stack) and n.lineno < call.lineno:
+            if binds[n.targets[0].id] in ('%s.pop()' % stack, '%s.pop(-1)' % stack) and _before(n, call):
                 # v = out.pop(): reads the top and removes it
                 binds[n.targets[0].id] = '%s[-1]' % stack
                 removed = True
-        if isinstance(n, ast.Delete) and n.lineno < call.lineno and any(_top_index(t, stack) == 'end' for t in n.targets):
+        if isinstance(n, ast.Delete) and _before(n, call) and any(_top_index(t, stack) == 'end' for t in n.targets):
             removed = True
-        if isinstance(n, ast.Expr) and isinstance(n.value, ast.Call) and n.lineno < call.lineno \
+        if isinstance(n, ast.Expr) and isinstance(n.value, ast.Call) and _before(n, call) \
                 and ast.unparse(n.value).replace(' ', '') in ('%s.pop()' % stack, '%s.pop(-1)' % stack):
             removed = True
     if not removed:
@@ -1641,9 +1642,18 @@ def check_patchup(ix, rep, f, opname, rule='R-SEGBUILD', slot_prefix=''):
         for k_, v_ in binds.items():
             t = t.replace(k_ + '[', '(' + v_ + ')[')
         return t
-    e0, e1, e2 = [norm(x) for x in call.args[0].elts]
-    top = ['(%s[len(%s)-1])' % (stack, stack), '(%s[-1])' % stack]
-    first = '(%s[0])' % sample
+    import re as _re
+
+    def unparen(t):
+        # (x[i])[j] and x[i][j] are one expression: a bound local leaves the parentheses behind, a direct subscript has none
+        prev = None
+        while prev != t:
+            prev = t
+            t = _re.sub(r'\((\w+\[[^()\[\]]*(?:\([^()]*\))?[^()\[\]]*\])\)', r'\1', t)
+        return t
+    e0, e1, e2 = [unparen(norm(x)) for x in call.args[0].elts]
+    top = ['%s[len(%s)-1]' % (stack, stack), '%s[-1]' % stack]
+    first = '%s[0]' % sample
     endn = [p for p, v in {**{a: a for a in ('end',)}, **{k: v for k, v in _local_bounds(f).items()}}.items() if v == 'end'] + ['self.end']
     ok0 = any(e0 == t + '[0]' for t in top)
     ok2 = any(e2 == t + '[2]' for t in top)
